@@ -243,6 +243,13 @@ func c01Alphabet(s *sessSys) []sessReq {
 				n := len(s.m.Sess)
 				p, f, q := rsBasic(fmt.Sprintf("16.0.0.%d", n+1), uint32(0x100+n), "11.1.1.129")
 				add("est-basic", sessReq{sReq: sReq{Kind: kEst, Conn: c, CPSEID: uint64(10 + n), CreatePDR: p, CreateFAR: f, CreateQER: q}})
+				if c == 0 {
+					// a session with a session-wide QER (two QERs shared by all PDRs): the modifications of the corpus then meet it
+					p2, f2, q2 := rsBasic(fmt.Sprintf("16.0.0.%d", n+1), uint32(0x100+n), "11.1.1.129")
+					p2[0].QERs, p2[1].QERs = []uint32{1, 4}, []uint32{1, 4}
+					q2 = append(q2, sQER{ID: 4, QFI: 5, MBRUL: 900000, MBRDL: 900000})
+					add("est-2qer", sessReq{sReq: sReq{Kind: kEst, Conn: c, CPSEID: uint64(10 + n), CreatePDR: p2, CreateFAR: f2, CreateQER: q2}})
+				}
 				if s.in.cfg.UEIPAlloc {
 					p5, f5, q5 := rsChoose()
 					add("est-choose", sessReq{sReq: sReq{Kind: kEst, Conn: c, CPSEID: uint64(10 + n), CreatePDR: p5, CreateFAR: f5, CreateQER: q5}})
@@ -272,7 +279,8 @@ func c01Corpus(s *sessSys) []sessReq {
 	}
 	q = append(q, sQER{ID: 4, QFI: 5, MBRUL: 5000, MBRDL: 5000, HasGBR: true, GBRUL: 100, GBRDL: 100})
 	em := uint8(0x02)
-	np := sdfPDRs(7, "16.0.7.7", 0x777, 40, "permit out tcp from 10.9.0.0/16 443 to assigned", 1, 2, []uint32{1})
+	// (the created PDRs list only the QER created with them: a PDR that does not reference the session-wide QER)
+	np := sdfPDRs(7, "16.0.7.7", 0x777, 40, "permit out tcp from 10.9.0.0/16 443 to assigned", 1, 2, []uint32{9})
 	mod := sReq{Kind: kMod, Conn: 0, HasCP: true, CPSEID: 0x55,
 		CreatePDR: np, CreateFAR: []sFAR{{ID: 9, Action: ActionDrop}}, CreateQER: []sQER{{ID: 9, QFI: 9, MBRUL: 1, MBRDL: 1}},
 		UpdatePDR: []sPDR{p[0]},
